@@ -169,6 +169,8 @@ class Runner:
             self.rpa(job)
         elif f == "rpaseq":
             self.rpaseq(job)
+        elif f == "rpastore":
+            self.rpastore(job)
         elif f == "padd":
             self.padd(job)
         else:
@@ -245,6 +247,52 @@ class Runner:
 
             # the question put to the resolver is always "is this an address of the peer whose key is job['irk']"
             self.one(job, "resolve", [job["irk"], text], thunk=res)
+
+    # -- the resolver as the Device builds it: from the bonds in a key store (some of them without an IRK)
+    def rpastore(self, job):
+        import asyncio
+        from unittest import mock
+
+        from bumble import hci, keys, smp
+
+        store = keys.MemoryKeyStore()
+        peers = []  # (irk or None, identity address)
+        for i, irk in enumerate(job["bonds"]):
+            addr = f"C{i}:F0:11:22:33:4{i}"
+            pk = keys.PairingKeys()
+            pk.address_type = hci.Address.RANDOM_DEVICE_ADDRESS
+            if irk is None:
+                pk.link_key = keys.PairingKeys.Key(value=bytes(16))
+            else:
+                pk.irk = keys.PairingKeys.Key(value=le(irk))
+            asyncio.run(store.update(addr, pk))
+            peers.append((irk, hci.Address(addr, hci.Address.RANDOM_DEVICE_ADDRESS)))
+        resolver = smp.AddressResolver(asyncio.run(store.get_resolving_keys()))
+        for irk, identity in peers:
+            if irk is None:
+                continue
+            box = {}
+
+            def gen(irk=irk, box=box):
+                with mock.patch("secrets.token_bytes", _Rand(bytes.fromhex(job["rand"]))):
+                    box["a"] = hci.Address.generate_private_address(le(irk))
+                return msb(bytes(box["a"]))
+
+            ev = self.one(job, "rpa", [irk, "?"], thunk=gen)
+            if ev["e"] != "call":
+                return
+            ab = bytes(box["a"])
+            ev["args"][1] = msb(ab[3:6])
+            ev["wellformed"] = len(ab) == 6 and (ab[5] >> 6) == 1 and bool(box["a"].is_resolvable)
+
+            def res(address=box["a"], identity=identity):
+                got = resolver.resolve(address)
+                if got is None:
+                    return "F"
+                return "T" if bytes(got) == bytes(identity) else f"X:{got!s}"
+
+            # "is this an address of the peer whose key is irk" - answered by the identity the resolver names
+            self.one(job, "resolve", [irk, ev["r"]], thunk=res)
 
     # -- diagnostic only (never a verdict): the fallback's private point addition
     def padd(self, job):
